@@ -76,7 +76,7 @@ func VP_C05_dec32() {
 	vp.SizeBound(16)
 	v := VarInt(vp.Int32())
 	ref, m := vpRefLEB(uint64(uint32(v)))
-	trail := vp.Bytes(3)
+	trail := vp.Bytes(3 * vp.Choice(2)) // followed by more bytes, or ending the stream
 	stream := append(append([]byte{}, ref[:m]...), trail...)
 	got := VarInt(vp.Int32()) // arbitrary prior contents of the destination
 	if vp.Choice(2) == 0 {
@@ -87,7 +87,9 @@ func VP_C05_dec32() {
 		vp.Assert(n == int64(m), "n==count")
 		vp.Assert(r.Len() == len(trail), "residual stream")
 	} else {
-		r := &vpPlainReader{b: stream}
+		// one byte per Read, or everything at once; the last byte of the stream
+		// may arrive together with io.EOF
+		r := &vpPlainReader{b: stream, chunk: vp.Choice(2), eofWithData: vp.Bool()}
 		n, err := got.ReadFrom(r)
 		vp.Assert(err == nil, "err==nil")
 		vp.Assert(got == v, "value")
@@ -101,7 +103,7 @@ func VP_C05_dec64() {
 	vp.SizeBound(16)
 	v := VarLong(vp.Int64())
 	ref, m := vpRefLEB(uint64(v))
-	trail := vp.Bytes(3)
+	trail := vp.Bytes(3 * vp.Choice(2)) // followed by more bytes, or ending the stream
 	stream := append(append([]byte{}, ref[:m]...), trail...)
 	got := VarLong(vp.Int64()) // arbitrary prior contents of the destination
 	if vp.Choice(2) == 0 {
@@ -112,7 +114,9 @@ func VP_C05_dec64() {
 		vp.Assert(n == int64(m), "n==count")
 		vp.Assert(r.Len() == len(trail), "residual stream")
 	} else {
-		r := &vpPlainReader{b: stream}
+		// one byte per Read, or everything at once; the last byte of the stream
+		// may arrive together with io.EOF
+		r := &vpPlainReader{b: stream, chunk: vp.Choice(2), eofWithData: vp.Bool()}
 		n, err := got.ReadFrom(r)
 		vp.Assert(err == nil, "err==nil")
 		vp.Assert(got == v, "value")
